@@ -2,6 +2,7 @@ package main
 
 import (
 	"fmt"
+	"math"
 	"sync"
 	"sync/atomic"
 	"time"
@@ -90,6 +91,29 @@ func init() {
 				v := ptrs[c.rng.Intn(len(ptrs))]
 				q.Remove(v, func(x orb.Pointer) bool { return x.(*qtPtr) == v })
 			}
+			deep := it%6 == 1
+			gateID := 0
+			if deep {
+				// a tree that is deep and branching at every level: points closing in on a corner geometrically (42 halvings),
+				// each level with a point in each of the other three quarters; query A will be stopped at the innermost point, with a long list
+				// of cells still to visit, while B walks the same tree from the other end
+				q = quadtree.New(orb.Bound{Min: orb.Point{0, 0}, Max: orb.Point{256, 256}})
+				ptrs = ptrs[:0]
+				add := func(x, y float64) {
+					p := &qtPtr{id: len(ptrs) + 1, p: orb.Point{x, y}}
+					ptrs = append(ptrs, p)
+					q.Add(p)
+				}
+				add(0.3*256, 0.2*256)
+				for lvl := 1; lvl <= 42; lvl++ {
+					sd := math.Ldexp(256, -(lvl - 1)) // side of the cell that is split on this level
+					add(0.75*sd, 0.25*sd)
+					add(0.25*sd, 0.75*sd)
+					add(0.75*sd, 0.75*sd)
+					add(0.15*sd, 0.1*sd) // stays in the lower left quarter: one level further down
+				}
+				gateID = len(ptrs) // the innermost point
+			}
 			mk := func(kind string) qtGateQuery {
 				pt := orb.Point{float64(c.rng.Intn(257)), float64(c.rng.Intn(257))}
 				qq := qtGateQuery{kind: kind, pt: pt, k: 1 + c.rng.Intn(6)}
@@ -110,6 +134,11 @@ func init() {
 				}
 			}
 			accept := func(p orb.Pointer) bool { return p.(*qtPtr).id%4 != 0 }
+			if deep {
+				accept = func(p orb.Pointer) bool { return true }
+				a = qtGateQuery{kind: []string{"inbm", "knnm"}[c.rng.Intn(2)], pt: orb.Point{0, 0}, k: 1000, box: orb.Bound{Min: orb.Point{0, 0}, Max: orb.Point{256, 256}}}
+				b = qtGateQuery{kind: []string{"knn", "inb", "find"}[c.rng.Intn(3)], pt: orb.Point{255, 255}, k: 1000, box: orb.Bound{Min: orb.Point{0, 0}, Max: orb.Point{200, 200}}}
+			}
 			e := map[string]interface{}{"k": "gate", "a": a.kind, "b": b.kind, "nt": 1, "completed": 1, "same": 1}
 			setCurrent("quadtree(paused query)", fmt.Sprint(a, b))
 			var aloneA, aloneB []int
@@ -121,7 +150,9 @@ func init() {
 			hit, wait := make(chan struct{}), make(chan struct{})
 			var once sync.Once
 			gatedFilter := func(p orb.Pointer) bool {
-				once.Do(func() { close(hit); <-wait })
+				if gateID == 0 || p.(*qtPtr).id == gateID {
+					once.Do(func() { close(hit); <-wait })
+				}
 				return accept(p)
 			}
 			usesFilter := a.kind == "matching" || a.kind == "knnm" || a.kind == "inbm"
